@@ -110,10 +110,11 @@ class Recorder:
         except Exception:  # noqa
             flag = "invalid"
         uid = doc.get("uid")
-        if uid is not None:
-            if uid in self._uids:
-                flag = "dupuid"
-            self._uids.add(uid)
+        for u in (uid if isinstance(uid, list) else [uid]):       # (an event_page carries one uid per row)
+            if u is not None:
+                if u in self._uids:
+                    flag = "dupuid"
+                self._uids.add(u)
         return flag
 
     def devmask(self, keys):
@@ -159,7 +160,7 @@ class Recorder:
         elif name == "event_page":
             stream, ro = self.desc.get(doc["descriptor"], ("?", 0))
             for s in doc["seq_num"]:
-                self.ev("doc", "event", stream, "", s, ro)
+                self.ev("doc", "event", stream, "", s, ro, flag)
         elif name == "stream_resource":
             ro = self.run_ord.get(doc.get("run_start"), 0)
             self.ev("doc", "stream_resource", doc.get("data_key", ""), "", 0, ro)
@@ -252,9 +253,9 @@ def msg_arg(msg):
     return ""
 
 
-DEV_ORDER = ["det", "det2", "mon1", "motor", "motor2", "pdet", "amotor", "apdet"]          # = DevOrderDef of the trace configurations
+DEV_ORDER = ["det", "det2", "mon1", "motor", "motor2", "pdet", "amotor", "apdet", "fly1", "fly2"]          # = DevOrderDef of the trace configurations
 DEV_KEYS = {"det": {"det"}, "det2": {"det2"}, "mon1": {"mon1"}, "motor": {"motor", "motor_setpoint"},
-            "motor2": {"motor2", "motor2_setpoint"}, "pdet": {"pdet"}, "amotor": {"amotor", "amotor_setpoint"}, "apdet": {"apdet"}}
+            "motor2": {"motor2", "motor2_setpoint"}, "pdet": {"pdet"}, "amotor": {"amotor", "amotor_setpoint"}, "apdet": {"apdet"}, "fly1": {"fly1_x"}, "fly2": {"fly2_x"}}
 GROUP_CMDS = ("set", "trigger", "stage", "unstage", "kickoff", "complete", "prepare", "wait")
 SUS_NAMES = {}     # id(suspender object) -> name, registered by the scenario runner
 FUT_NAMES = {}     # id(awaitable factory) -> name, registered by the scenario runner
